@@ -136,6 +136,7 @@ End Ser.
 Record auth_ok (shs : spec_host -> list N) (sch un pw ht : list N) (hi : host_internal) (sh : spec_host)
        (po : option N) (segs : list (list N)) (q f : option (list N)) : Prop := mk_auth_ok {
   ak_sch : scheme_canon sch = true;
+  ak_ns : scheme_type_of sch = STNotSpecial;
   ak_ht : ht = shs sh;
   ak_col : starts_with_cp 58 ht = false;
   ak_hi : hi = HI_None -> ht = [];
@@ -175,7 +176,7 @@ Qed.
 (* the byte after the credentials is not ':' *)
 Lemma au_after_cred : starts_with_cp 58 (ht ++ port_suffix po ++ pt ++ qf_text q f) = false.
 Proof.
-  destruct K as [_ _ Hcol _ Hhp _ _ _]. rewrite starts_with_cp_app. destruct ht as [|a r] eqn:E; [|exact Hcol].
+  destruct K as [_ _ _ Hcol _ Hhp _ _ _]. rewrite starts_with_cp_app. destruct ht as [|a r] eqn:E; [|exact Hcol].
   rewrite (Hhp eq_refl). cbn [port_suffix app]. rewrite starts_with_cp_app.
   unfold pt. destruct (flat_map (fun s => 47 :: s) segs) eqn:E2; [apply qf_text_head|].
   rewrite <- E2. apply flat_map_head.
@@ -183,7 +184,7 @@ Qed.
 
 Lemma au_wf : wf_b u = true.
 Proof.
-  destruct K as [Hsch Hht Hcol Hhi Hhp Hpo Hpt Hq].
+  destruct K as [Hsch Hnsp Hht Hcol Hhi Hhp Hpo Hpt Hq].
   unfold scheme_canon in Hsch. apply andb_true_iff in Hsch. destruct Hsch as [Hhead Hall].
   pose proof s0_len as L0.
   unfold wf_b. rewrite au_has_authority. apply andb_true_iff. split; [apply andb_true_iff; split|].
@@ -286,7 +287,7 @@ Qed.
 
 Theorem au_api : api_of_model dbg u = Some (spec_api_list shs (spec_auth_url sch un pw sh po segs q f)).
 Proof.
-  pose proof au_wf as W. destruct K as [Hsch Hht Hcol Hhi Hhp Hpo Hpt Hq].
+  pose proof au_wf as W. destruct K as [Hsch Hnsp Hht Hcol Hhi Hhp Hpo Hpt Hq].
   pose proof s0_len as L0.
   assert (nlen s1 = nlen s0 + nlen (cred_text un pw)) as L1 by (unfold s1; apply nlen_app).
   assert (nlen s2 = nlen s1 + nlen ht) as L2 by (unfold s2; apply nlen_app).
@@ -370,6 +371,40 @@ Proof.
     rewrite nskipn_app_len. unfold qf_text. rewrite nfirstn_app_len. apply q_trim_qtext.
   - (* hash *)
     unfold qf_text. rewrite app_assoc. rewrite nskipn_app_len. apply q_trim_ftext.
+Qed.
+
+
+Theorem related_auth : related dbg shs u (spec_auth_url sch un pw sh po segs q f).
+Proof.
+  pose proof au_wf as W. pose proof au_api as A. destruct K as [Hsch Hnsp Hht Hcol Hhi Hhp Hpo Hpt Hq].
+  constructor.
+  - exact W.
+  - exact A.
+  - (* before the fragment *)
+    rewrite (serialize_auth shs sch un pw sh po segs q f true Hpo). rewrite <- Hht. fold pt s0 s1 s2 s3 s4.
+    rewrite app_nil_r. unfold b_before_fragment. change (fragment_start u) with (qf_fs (nlen s4) q f). rewrite au_ser.
+    unfold qf_text. destruct f as [y|]; cbn [qf_fs qf_ftext].
+    + rewrite <- nlen_app. rewrite app_assoc. apply nfirstn_app_exact.
+    + rewrite app_nil_r. reflexivity.
+  - (* before the query *)
+    change (set_query (spec_auth_url sch un pw sh po segs q f) None) with (spec_auth_url sch un pw sh po segs None f).
+    rewrite (serialize_auth shs sch un pw sh po segs None f true Hpo). rewrite <- Hht. fold pt s0 s1 s2 s3 s4.
+    cbn [qf_qtext app]. rewrite app_nil_r. unfold b_before_query.
+    change (query_start u) with (qf_qs (nlen s4) q). change (fragment_start u) with (qf_fs (nlen s4) q f). rewrite au_ser.
+    unfold qf_text. destruct q as [x|]; destruct f as [y|]; cbn [qf_qs qf_fs qf_qtext qf_ftext].
+    + apply nfirstn_app_exact.
+    + apply nfirstn_app_exact.
+    + cbn [app]. rewrite nlen_nil, N.add_0_r. apply nfirstn_app_exact.
+    + cbn [app]. apply app_nil_r.
+  - (* cannot be a base *)
+    rewrite (cannot_be_a_base_eval _ W). cbn [has_opaque_path su_path spec_auth_url]. do 2 f_equal.
+    change (scheme_end u) with (nlen sch). rewrite au_ser. unfold s4, s3, s2, s1, s0, auth_s0.
+    repeat rewrite <- app_assoc.
+    replace (nlen sch + 1) with (nlen (sch ++ [58])) by (clear; ll). rewrite app_assoc. cbn [app]. rewrite byte_eqb_app. reflexivity.
+  - (* scheme *)
+    unfold b_scheme. change (scheme_end u) with (nlen sch). rewrite au_ser. unfold s4, s3, s2, s1, s0, auth_s0.
+    repeat rewrite <- app_assoc. apply nfirstn_app_len.
+  - split; [intros H; discriminate H|]. cbn [su_scheme spec_auth_url]. intros H. rewrite H in Hnsp. discriminate Hnsp.
 Qed.
 
 End One.
